@@ -1,6 +1,7 @@
 package main
 
 import (
+	"go/types"
 	"strings"
 
 	"golang.org/x/tools/go/ssa"
@@ -46,7 +47,24 @@ func c07r1(r *R) {
 	}
 	held := map[*ssa.Function]map[ssa.Instruction]lockSet{}
 	n := 0
-	for _, f := range h2frameFields {
+	// every field of the shared per-connection struct (not only the four known today): a scratch buffer or cache added
+	// to it is connection data read and written by concurrent handlers just the same
+	fields := append([]string{}, h2frameFields...)
+	if st, ok := nt.Underlying().(*types.Struct); ok {
+		for i := 0; i < st.NumFields(); i++ {
+			fn := fieldName(nt, i)
+			known := false
+			for _, k := range fields {
+				if k == fn {
+					known = true
+				}
+			}
+			if !known && fn != mf && !strings.HasSuffix(typeName(st.Field(i).Type()), "sync.RWMutex") && !strings.HasSuffix(typeName(st.Field(i).Type()), "sync.Mutex") {
+				fields = append(fields, fn)
+			}
+		}
+	}
+	for _, f := range fields {
 		for _, a := range fieldAccesses(c.FuncsIn(), nt, f) {
 			if strings.HasPrefix(a.Kind, "addr:") && a.Kind != "addr:stored" {
 				// address passed to a call etc.: treat as read+write escape
